@@ -98,5 +98,56 @@ Section MergeLive.
       + unfold aw in Ha. rewrite Hops in Ha. exact Ha.
     - intros s HQ HT. apply TSm_some; auto.
   Qed.
+  (* ... and from every reachable state: after ANY history, as long as the merge has not ended, has not been dropped and some input is still
+     alive, the wake-driven executor obtains the next result within (longest remaining script) rounds *)
+  Lemma merge_LiveI_run ops : LiveI mst m_n (mrun w0 ops).
+  Proof.
+    apply (LiveI_run mst m_n m_awaited (fun _ i => i) m_handle true true m_order m_pre_exit (fun _ => false) m_finish (fun s => s)
+             (fun s => drop_all_children (m_n s)) m_final m_Q M1 M2 M3 M4 M5 M6 M7 M8 M9 M10 M11 M12 M13 M14
+             (fun _ => eq_refl) (fun _ _ _ => eq_refl) (fun _ H => H) (fun _ => eq_refl) (fun _ _ _ => eq_refl) (fun _ H => H)
+             mmut (fun w _ _ _ H => H) (fun _ _ => eq_refl) m_abort_panic TSm USm_cont (fun _ _ _ _ => eq_refl)).
+    - apply merge_init.
+    - split; [reflexivity|]. split; [exact Hnp|].
+      unfold HT, N, m_n, polled. cbn. rewrite !repeat_length. split; [reflexivity|]. split; [reflexivity|].
+      intros c Hc. rewrite !repeat_nth by exact Hc. split; [intros h []|discriminate].
+  Qed.
+  Lemma merge_Inv_run ops : Inv mst m_n m_awaited m_Q (mrun w0 ops).
+  Proof.
+    apply (Inv_run mst m_n m_awaited (fun _ i => i) m_handle true true m_order m_pre_exit (fun _ => false) m_finish (fun s => s)
+             (fun s => drop_all_children (m_n s)) m_final m_Q M1 M2 M3 M4 M5 M6 M7 M8 M9 M10 M11 M12 M13 M14
+             (fun _ => eq_refl) (fun _ _ _ => eq_refl) (fun _ H => H) (fun _ => eq_refl) (fun _ _ _ => eq_refl) (fun _ H => H)
+             mmut (fun w _ _ _ H => H)). apply merge_init.
+  Qed.
+
+  Theorem merge_next_result ops B : let w := mrun w0 ops in
+    finished _ w = false -> dropped _ w = false -> m_complete (cs _ w) < n ->
+    (forall j, length (nth j (scripts _ w) []) <= B) -> 1 <= B ->
+    exists r, r < B /\ dropped _ (mrounds (S r) w) = false /\ g_retpend _ (mrounds (S r) w) = false /\
+              (forall r', r' <= r -> finished _ (mrounds r' w) = false) /\
+              exists u o, tr _ (mrounds (S r) w) = tr _ (mrounds r w) ++ u ++ [EEndR o].
+  Proof.
+    cbv zeta. intros Hf Hd Hc HB HB1.
+    destruct (merge_R_run ops) as (pre & Hl & Hmn & _ & _ & _ & _ & _ & Hcn & _).
+    apply (next_result mst m_n m_awaited (fun _ i => i) m_handle true true m_order m_pre_exit (fun _ => false) m_finish (fun s => s)
+             (fun s => drop_all_children (m_n s)) m_final m_Q M1 M2 M3 M4 M5 M6 M7 M8 M9 M10 M11 M12 M13 M14
+             (fun _ => eq_refl) (fun _ _ _ => eq_refl) (fun _ H => H) (fun _ => eq_refl) (fun _ _ _ => eq_refl) (fun _ H => H)
+             mmut (fun w _ _ _ H => H) (fun _ _ => eq_refl) m_abort_panic TSm TSm USm_cont TSm_order (fun s _ H _ => H) (fun _ s H => H) TSm_order_some).
+    - apply merge_Inv_run.
+    - apply merge_LiveI_run.
+    - split; [rewrite Hmn; exact Hc|exact Hcn].
+    - exact Hd.
+    - exact Hf.
+    - exact HB.
+    - exact HB1.
+    - intros r j Hj _ Ha.
+      destruct (rounds_is_run mst m_n m_awaited (fun _ i => i) m_handle true true m_order m_pre_exit (fun _ => false) m_finish (fun s => s)
+                  (fun s => drop_all_children (m_n s)) m_final mmut r (mrun w0 ops)) as [ops' Hops].
+      assert (E : mrun (mrun w0 ops) ops' = mrun w0 (ops ++ ops')) by (unfold run_ops; rewrite fold_left_app; reflexivity).
+      unfold rem. rewrite Hops, E. apply awaited_has_steps.
+      + unfold N in Hj. rewrite Hmn in Hj. exact Hj.
+      + unfold aw in Ha. rewrite Hops, E in Ha. exact Ha.
+    - intros s HQ HT. apply TSm_some; auto.
+  Qed.
 End MergeLive.
+Print Assumptions merge_next_result.
 Print Assumptions merge_first_result.
